@@ -11,6 +11,18 @@
          one-element list of it, or a list()/tuple() copy).  reversed / sorted / set / a slice with a step re-order.
   R14.j  a 304 carries no body: the object returned on the 304 path is the response created with an empty body, and no
          store to its body (.response / .data / set_data / .stream) can reach that return.
+  R14.k  like with like: the time compared with If-Modified-Since and the time sent as Last-Modified are the same function
+         of the file (same callee of the package, same arguments once defaults are bound and constants folded; each use is
+         resolved through its *reaching* definitions).
+  R14.l  the Content-Type is guessed: mimetype argument, else guess_type(<served path>)[0], else default_binary_mime under
+         is_binary_string(<bytes peek_file read from the opened file>) and default_text_mime otherwise.
+  R14.m  cache_timeout (positive default), the default types, the route's mimetype and request.if_modified_since reach
+         build_file_response from the constructor arguments / the request unchanged.
+  R14.n  peek_file seeks back to the position noted by tell() before the read on every normal path to its exit;
+         build_file_response never reads from the handle itself.
+In R14.i the order is also followed through functions of the package (their return expressions, with the parameter
+bound to the argument) and through accumulators (a list filled by append in a loop over the sequence keeps the order, a
+set / a sort() / insert() does not).
 """
 import ast
 
@@ -19,7 +31,7 @@ from .common import cfg_of, fkey, stmts_of, walk_body, call_tail, call_name, ret
 from ..cfg import expand_conds
 
 STATIC = 'clastic.static'
-ORDER_KEEPING = ('list', 'tuple')
+ORDER_KEEPING = ('list', 'tuple', 'iter', 'enumerate')
 ORDER_BREAKING = ('reversed', 'sorted', 'set', 'frozenset')
 BODY_ATTRS = ('response', 'data', 'stream', 'direct_passthrough')
 BODY_CALLS = ('set_data',)
@@ -80,6 +92,13 @@ def r14h(rep):
                 if not bt:
                     continue
             v = _speaks_of_param(C, bfr, c.args[0], pname)
+            if kind == 'guess_type' and v == 'no':
+                ss = C._srcs(bfr, c.args[0])
+                if ss and all(isinstance(x, ast.Call) and call_tail(x) == 'basename' and len(x.args) == 1 and not x.keywords and
+                              _speaks_of_param(C, bfr, x.args[0], pname) == 'yes' for x in ss):
+                    v = 'yes'       # the guess goes by the name only
+                elif any(isinstance(n, ast.Name) and n.id == pname for x in ss if isinstance(x, ast.AST) for n in ast.walk(x)):
+                    v = 'wrapped'
             if v == 'wrapped':
                 gaps.append('%s is about %s, which is not followed' % (labels[kind], short(c.args[0])))
                 continue
@@ -243,6 +262,9 @@ def _kept_order(C, fi, expr, pname, depth=0, seen=(), single=True):
         if expr.id in seen:
             return 'same', expr         # a re-binding in terms of itself: its other sources are judged by the caller
         ss = C._srcs(fi, expr)
+        acc = _accumulated(C, fi, expr, ss, pname, depth, seen, single)
+        if acc is not None:
+            return acc
         if ss and all(isinstance(x, ast.expr) for x in ss):
             worst = ('same', expr)
             for x in ss:
@@ -256,10 +278,14 @@ def _kept_order(C, fi, expr, pname, depth=0, seen=(), single=True):
                     worst = r
             return worst
         return 'other', expr
-    if isinstance(expr, ast.Call) and isinstance(expr.func, ast.Name) and len(expr.args) == 1 and not isinstance(expr.args[0], ast.Starred) \
+    if isinstance(expr, ast.Call):
+        callee, skip = C._callee(C._Ctx(fi.mod, fi, None, 0), expr)
+        if callee is not None:
+            return _through_call(C, fi, expr, callee, skip, pname, depth, seen, single)
+    if isinstance(expr, ast.Call) and isinstance(expr.func, ast.Name) and len(expr.args) >= 1 and not isinstance(expr.args[0], ast.Starred) \
             and expr.func.id not in C._locals_of(fi):
         inner = rec(expr.args[0])
-        if expr.func.id in ORDER_KEEPING and not expr.keywords:
+        if expr.func.id in ORDER_KEEPING and not expr.keywords and len(expr.args) == 1:
             return inner
         if expr.func.id in ORDER_BREAKING and inner[0] != 'other':
             return 'reordered', expr
@@ -274,10 +300,88 @@ def _kept_order(C, fi, expr, pname, depth=0, seen=(), single=True):
         if sl.lower is None and sl.upper is None:
             return inner
         return 'other', expr
-    if isinstance(expr, ast.ListComp) and len(expr.generators) == 1 and not expr.generators[0].ifs:
-        # [f(p) for p in search_paths]: one entry per search path, in order
-        return rec(expr.generators[0].iter)
+    if isinstance(expr, (ast.ListComp, ast.GeneratorExp, ast.SetComp)) and len(expr.generators) == 1 and not expr.generators[0].ifs:
+        # [f(p) for p in search_paths]: one entry per search path, in order; {f(p) for p in ..}: no order
+        inner = rec(expr.generators[0].iter)
+        if isinstance(expr, ast.SetComp) and inner[0] == 'same':
+            return 'reordered', expr
+        return inner
     return 'other', expr
+
+
+def _accumulated(C, fi, name, ss, pname, depth, seen, single):
+    """A local that starts as an empty container and is filled, one entry per round, in a loop over the sequence: a list
+    filled with append keeps the order of the loop; a set has no order of its own.  None when the local is not of that
+    shape."""
+    if len(ss) != 1 or not isinstance(ss[0], ast.expr):
+        return None
+    v = ss[0]
+    if isinstance(v, (ast.List, ast.Tuple)) and not v.elts:
+        kind = 'list'
+    elif isinstance(v, ast.Call) and isinstance(v.func, ast.Name) and v.func.id in ('list', 'set') and not v.args and not v.keywords \
+            and v.func.id not in C._locals_of(fi):
+        kind = v.func.id
+    elif isinstance(v, ast.Call) and isinstance(v.func, ast.Name) and v.func.id in ('set', 'frozenset') and len(v.args) == 1 and not v.keywords \
+            and v.func.id not in C._locals_of(fi):
+        return None         # set(<seq>): judged as a call
+    else:
+        return None
+    mod = fi.mod
+    fills = []
+    for c in walk_body(fi.node):
+        if isinstance(c, ast.Call) and isinstance(c.func, ast.Attribute) and isinstance(c.func.value, ast.Name) and c.func.value.id == name.id:
+            if c.func.attr in ('append', 'add'):
+                fills.append(c)
+            elif c.func.attr in ('insert', 'sort', 'reverse', 'extend', 'update', 'remove', 'pop', 'discard', 'clear'):
+                if c.func.attr in ('sort', 'reverse', 'insert'):
+                    return 'reordered', c
+                return 'other', c
+    if not fills:
+        return None
+    verdict = ('same', name)
+    for c in fills:
+        loop = _loop_of(mod, stmt_of(mod, c))
+        if not isinstance(loop, (ast.For, ast.AsyncFor)):
+            return 'other', c
+        r = _kept_order(C, fi, loop.iter, pname, depth + 1, seen + (name.id,), single)
+        if r[0] == 'other':
+            return 'other', c
+        if r[0] == 'reordered':
+            verdict = r
+    if kind == 'set' and verdict[0] == 'same':
+        return 'reordered', v       # collected into a set: the order of the loop is not kept
+    return verdict
+
+
+def _through_call(C, fi, call, callee, skip, pname, depth, seen, single):
+    """The verdict for what a function of the package returns when it is handed the sequence."""
+    node = callee.node
+    if not isinstance(node, ast.FunctionDef) or node.decorator_list or not C._plain_args(call) or depth > 6 or \
+            any(isinstance(n, (ast.Yield, ast.YieldFrom)) for n in walk_body(node)):
+        return 'other', call
+    pos = [x.arg for x in node.args.posonlyargs + node.args.args]
+    given = {}
+    for i, a in enumerate(call.args):
+        if i + skip < len(pos):
+            given[pos[i + skip]] = a
+    for k in call.keywords:
+        given[k.arg] = k.value
+    related = [(p, _kept_order(C, fi, a, pname, depth + 1, seen, single)) for p, a in given.items()]
+    related = [(p, r) for p, r in related if r[0] != 'other']
+    if len(related) != 1:
+        return 'other', call
+    p, r_in = related[0]
+    rets = [r for r in returns_of(callee) if r.value is not None]
+    if not rets:
+        return 'other', call
+    worst = r_in
+    for r in rets:
+        v = _kept_order(C, callee, r.value, p, depth + 1, (), single)
+        if v[0] == 'other':
+            return 'other', call
+        if v[0] == 'reordered':
+            worst = v
+    return worst
 
 
 def _block_of(mod, st):
@@ -486,3 +590,285 @@ def r14k(rep):
               'both are %s with the same arguments' % ' / '.join(sorted(set(v[0].qualname for v in sh_s.values()))) if same else
               'the time sent as Last-Modified and the time compared with If-Modified-Since are computed differently (%s): a client '
               'echoing the date it was sent is not reliably answered 304, or a changed file passes as unchanged' % detail, st, compared[0])
+
+
+# ---------------------------------------------------------------------------------------------- R14.l
+def r14l(rep):
+    """The Content-Type is *guessed*: the caller's mimetype if given, else the guess for the served path, else -- by looking
+    at the first bytes of the opened file -- the binary default for binary content and the text default otherwise."""
+    C = _C()
+    repo = rep.repo
+    st = repo.mod(STATIC)
+    bfr = st.func('build_file_response')
+    rep.rule('R14.l', 'Content-Type is the mimetype argument, else the guess for the served path, else the binary / text default chosen '
+             'by peeking into the opened file')
+    params = bfr.params()
+    pname = params[0]
+    need = [p for p in ('mimetype', 'default_text_mime', 'default_binary_mime') if p not in params]
+    if need:
+        raise AnalysisError('build_file_response: parameter(s) %s not found' % ', '.join(need))
+    rets = returns_of(bfr)
+    if not rets:
+        raise AnalysisError('build_file_response: no return')
+    hdr = [s_ for s_ in stmts_of(bfr.node) if isinstance(s_, ast.Assign) and any(isinstance(t, ast.Attribute) and t.attr in ('content_type', 'mimetype')
+                                                                               for t in s_.targets)]
+    if not hdr:
+        raise AnalysisError('build_file_response: assignment of the Content-Type not found')
+
+    def kind_of(x):
+        if not isinstance(x, ast.expr):
+            return 'stmt'
+        if C._is_param(x):
+            return {'mimetype': 'given', 'default_text_mime': 'text', 'default_binary_mime': 'binary'}.get(x.id, 'other-param')
+        e = x
+        if isinstance(e, ast.Subscript) and isinstance(e.slice, ast.Constant) and e.slice.value == 0:
+            e = e.value
+            if isinstance(e, ast.Call) and call_tail(e) == 'guess_type':
+                return 'guess'
+        if isinstance(x, ast.Constant) or (isinstance(x, (ast.Name, ast.Attribute)) and not (isinstance(x, ast.Name) and x.id in C._locals_of(bfr))
+                                           and isinstance(repo.try_fold(x, st, None), str)):
+            return 'constant'
+        return 'unknown'
+    for h in hdr:
+        srcs = C._srcs(bfr, h.value)
+        kinds = [(kind_of(x), x) for x in srcs]
+        unknown = [x for k, x in kinds if k in ('unknown', 'stmt')]
+        fixed = [x for k, x in kinds if k in ('constant', 'other-param')]
+        if unknown and not fixed:
+            callee = [C._internal_callee(bfr, x) for x in unknown if isinstance(x, ast.expr)]
+            raise AnalysisError('build_file_response: the Content-Type can come from %s, which is not followed'
+                                % (short(unknown[0]) if isinstance(unknown[0], ast.AST) else unknown[0]))
+        have = set(k for k, x in kinds)
+        ok = not fixed and {'given', 'guess', 'text', 'binary'} <= have
+        rep.check('R14.l', fkey(bfr, 'content type is guessed'), ok,
+                  'the Content-Type is the given mimetype, the guess for the path, or one of the two configured defaults' if ok else
+                  ('the Content-Type can be %s, which is neither given, guessed nor a configured default' % short(fixed[0]) if fixed else
+                   'the Content-Type never comes from %s' % ', '.join(sorted({'given': 'the mimetype argument', 'guess': 'mimetypes.guess_type(path)',
+                                                                                'text': 'default_text_mime', 'binary': 'default_binary_mime'}[k]
+                                                                               for k in {'given', 'guess', 'text', 'binary'} - have))), st, h)
+    # which default: decided by is_binary_string(<what peek_file read from the opened file>)
+    def is_binary_test(t):
+        for x in (C._srcs(bfr, t) if isinstance(t, ast.Name) else [t]):
+            if isinstance(x, ast.Call) and call_tail(x) == 'is_binary_string' and x.args:
+                return x
+        return None
+    found = {'binary': [], 'text': []}
+    for s_ in stmts_of(bfr.node):
+        if isinstance(s_, ast.Assign) and isinstance(s_.value, ast.Name) and s_.value.id in ('default_binary_mime', 'default_text_mime') and \
+                not C.assigned_value(bfr.node, s_.value.id):
+            found['binary' if s_.value.id == 'default_binary_mime' else 'text'].append(s_)
+    if not found['binary'] or not found['text']:
+        raise AnalysisError('build_file_response: the statements choosing default_binary_mime / default_text_mime not found')
+    for s_ in found['binary']:
+        cs = C._conds(bfr, s_)
+        tests = [is_binary_test(t) for t, p in cs if p is True and is_binary_test(t) is not None]
+        ok = bool(tests)
+        rep.check('R14.l', fkey(bfr, 'binary default for binary content'), ok,
+                  'default_binary_mime is chosen only when is_binary_string(..) holds' if ok else
+                  'default_binary_mime is chosen without is_binary_string(<peeked bytes>) being true (%s): text files are served as binary '
+                  'or the other way round' % ('; '.join('%s%s' % ('' if p else 'not ', short(t, 40)) for t, p in cs) or 'unconditionally'), st, s_)
+        for t in tests:
+            a0 = t.args[0]
+            okp = C._all_srcs(bfr, a0, lambda e: isinstance(e, ast.Call) and call_tail(e) == 'peek_file' and e.args and
+                              C._all_srcs(bfr, e.args[0], lambda o: isinstance(o, ast.Call) and call_name(o) == 'open'), known=('peek_file',))
+            rep.check('R14.l', fkey(bfr, 'binary test looks at the opened file'), okp,
+                      'is_binary_string() is given what peek_file() read from the opened file' if okp else
+                      'is_binary_string() is given %s, which is not what peek_file() read from the opened file' % short(a0), st, t)
+    for s_ in found['text']:
+        cs = C._conds(bfr, s_)
+        bad = [t for t, p in cs if p is True and is_binary_test(t) is not None]
+        rep.check('R14.l', fkey(bfr, 'text default for the rest'), not bad,
+                  'default_text_mime is chosen when the content is not binary (or empty)' if not bad else
+                  'default_text_mime is chosen when is_binary_string(..) holds: binary files are served as text', st, s_)
+    rep.floor('R14.l', 4)
+
+
+# ---------------------------------------------------------------------------------------------- R14.m
+def _default_of(fi, pname):
+    a = fi.node.args
+    pos = a.posonlyargs + a.args
+    d = dict(zip([x.arg for x in pos[len(pos) - len(a.defaults):]], a.defaults))
+    d.update((x.arg, v) for x, v in zip(a.kwonlyargs, a.kw_defaults) if v is not None)
+    return d.get(pname)
+
+
+def _attr_stores(fi, attr):
+    """[(statement, value expression | None)] for every ``self.<attr> = ..`` of the function, element-wise for ``a, b = x, y``."""
+    out = []
+    want = 'self.' + attr
+    for s in stmts_of(fi.node):
+        if isinstance(s, ast.Assign):
+            for t0 in s.targets:
+                if norm(t0) == want:
+                    out.append((s, s.value))
+                elif isinstance(t0, (ast.Tuple, ast.List)):
+                    for i, t in enumerate(t0.elts):
+                        if norm(t) == want:
+                            plain = isinstance(s.value, (ast.Tuple, ast.List)) and len(s.value.elts) == len(t0.elts) and \
+                                not any(isinstance(x, ast.Starred) for x in list(t0.elts) + list(s.value.elts))
+                            out.append((s, s.value.elts[i] if plain else None))
+        elif isinstance(s, (ast.AnnAssign, ast.AugAssign)) and norm(s.target) == want:
+            out.append((s, s.value if isinstance(s, ast.AnnAssign) else None))
+    return out
+
+
+def r14m(rep):
+    """The configuration of the application / route reaches build_file_response unchanged: cache_timeout (client caching,
+    on by default -- without it no conditional request is ever answered 304), the two default types (not swapped), the
+    route's mimetype, the client's If-Modified-Since."""
+    C = _C()
+    repo = rep.repo
+    st = repo.mod(STATIC)
+    bfr = st.func('build_file_response')
+    rep.rule('R14.m', 'cache_timeout (on by default), the default types, the mimetype and If-Modified-Since reach build_file_response '
+             'from the configuration / the request unchanged')
+    plan = [('StaticApplication', {'cache_timeout': 'self.cache_timeout', 'default_text_mime': 'self.default_text_mime',
+                                   'default_binary_mime': 'self.default_binary_mime', 'cached_modify_time': 'request.if_modified_since'},
+             ('cache_timeout', 'default_text_mime', 'default_binary_mime')),
+            ('StaticFileRoute', {'cache_timeout': 'self.cache_timeout', 'mimetype': 'self.mimetype',
+                                 'cached_modify_time': 'request.if_modified_since'}, ('cache_timeout', 'mimetype'))]
+    bparams = bfr.params()
+    for cname, wiring, stored in plan:
+        ep = st.func('%s.get_file_response' % cname)
+        init = st.func('%s.__init__' % cname)
+        calls = C._bfr_calls(ep)
+        if not calls:
+            raise AnalysisError('%s.get_file_response: call of build_file_response not found' % cname)
+        if 'request' not in ep.params() or C.assigned_value(ep.node, 'request'):
+            raise AnalysisError('%s.get_file_response: parameter request not found / re-bound' % cname)
+        for c in calls:
+            for kw, want in sorted(wiring.items()):
+                if kw not in bparams:
+                    raise AnalysisError('build_file_response: parameter %s not found' % kw)
+                a = C._argn(ep, c, kw, bparams.index(kw))
+                ok = a is not None and C._all_srcs(ep, a, lambda e, want=want: norm(e) == want)
+                rep.check('R14.m', fkey(ep, 'passes %s' % kw), ok, '%s=%s' % (kw, want) if ok else
+                          '%s.get_file_response passes %s=%s to build_file_response, not %s%s'
+                          % (cname, kw, short(a) if a is not None else '<nothing>', want,
+                             ': conditional requests are never answered 304' if kw in ('cache_timeout', 'cached_modify_time') else
+                             ': the configured type does not reach the response'), st, c)
+        for attr in stored:
+            sts = _attr_stores(init, attr)
+            if not sts:
+                raise AnalysisError('%s.__init__: assignment of self.%s not found' % (cname, attr))
+            if attr not in init.params():
+                raise AnalysisError('%s.__init__: parameter %s not found' % (cname, attr))
+            if any(v is None for s, v in sts):
+                raise AnalysisError('%s.__init__: self.%s is bound by an unpacking that is not followed' % (cname, attr))
+            ok = all(C._all_srcs(init, v, lambda e, attr=attr: C._is_param(e, attr)) for s, v in sts)
+            rep.check('R14.m', fkey(init, 'keeps %s' % attr), ok, 'self.%s is the constructor argument' % attr if ok else
+                      'self.%s is not (always) the constructor argument %s: %s' % (attr, attr, short(sts[0][1])), st, sts[0][0])
+        # client caching is on unless switched off
+        d = _default_of(init, 'cache_timeout')
+        if d is None:
+            raise AnalysisError('%s.__init__: cache_timeout has no default' % cname)
+        marker = object()
+        v = d.value if isinstance(d, ast.Constant) else repo.try_fold(d, st, marker)
+        if v is marker or isinstance(v, bool) or not isinstance(v, (int, float, type(None))):
+            raise AnalysisError('%s.__init__: default of cache_timeout (%s) is not a constant number' % (cname, short(d)))
+        ok = v is not None and v > 0
+        rep.check('R14.m', fkey(init, 'client caching on by default'), ok, 'cache_timeout defaults to %r' % (v,) if ok else
+                  'cache_timeout defaults to %r: with the default configuration build_file_response never takes the 304 branch, a '
+                  'conditional request carrying the Last-Modified value the server sent is answered 200' % (v,), st, init.node)
+    # the two defaults of the application are the ones of build_file_response (not swapped)
+    init = st.func('StaticApplication.__init__')
+    for attr in ('default_text_mime', 'default_binary_mime'):
+        a, b = _default_of(init, attr), _default_of(bfr, attr)
+        if a is None or b is None:
+            raise AnalysisError('default of %s not found' % attr)
+        marker = object()
+        va = a.value if isinstance(a, ast.Constant) else repo.try_fold(a, st, marker)
+        vb = b.value if isinstance(b, ast.Constant) else repo.try_fold(b, st, marker)
+        if va is marker or vb is marker:
+            raise AnalysisError('default of %s is not a constant' % attr)
+        rep.check('R14.m', fkey(init, 'default of %s' % attr), va == vb, '%s defaults to %r in both' % (attr, va) if va == vb else
+                  'StaticApplication defaults %s to %r, build_file_response to %r' % (attr, va, vb), st, init.node)
+    rep.floor('R14.m', 14)
+
+
+# ---------------------------------------------------------------------------------------------- R14.n
+READS = ('read', 'readline', 'readlines', 'readinto', 'read1', 'seek', 'truncate', 'write', '__next__', 'next', 'detach')
+
+
+def r14n(rep):
+    """The body is the whole file: looking at the first bytes to guess the type leaves the handle where it was -- peek_file
+    seeks back to the position it noted before reading, on every path on which it returns -- and nothing else in
+    build_file_response consumes the handle before it is wrapped."""
+    C = _C()
+    repo = rep.repo
+    st = repo.mod(STATIC)
+    rep.rule('R14.n', 'peek_file restores the position of the handle; build_file_response hands the handle to the wrapper unread')
+    pk = st.func('peek_file')
+    cfg = cfg_of(pk)
+    fobj = pk.params()[0]
+    if C.assigned_value(pk.node, fobj):
+        raise AnalysisError('peek_file: parameter %s is re-bound' % fobj)
+    calls = dict((k, []) for k in ('tell', 'read', 'seek'))
+    for c in walk_body(pk.node):
+        if isinstance(c, ast.Call) and isinstance(c.func, ast.Attribute) and isinstance(c.func.value, ast.Name) and c.func.value.id == fobj:
+            if c.func.attr in calls:
+                calls[c.func.attr].append(c)
+            elif c.func.attr in READS:
+                calls['read'].append(c)
+    if not calls['read']:
+        raise AnalysisError('peek_file: the read of the file object not found')
+    node_of = lambda c: cfg.nodes_of(stmt_of(pk.mod, c))
+    rets = [r for r in returns_of(pk)]
+    for rd in calls['read']:
+        rn = node_of(rd)
+        after = cfg.reach([m for n in rn for m in cfg.succ[n]], normal_only=True)
+        # seeks that put the handle back: seek(<what tell() said before this read>)
+        restoring = []
+        for sk in calls['seek']:
+            pos = C._argn(pk, sk, 'offset', 0)
+            whence = C._argn(pk, sk, 'whence', 1)
+            if whence is not None and not (isinstance(whence, ast.Constant) and whence.value == 0):
+                continue
+            if pos is None:
+                continue
+            ss = C._srcs(pk, pos)
+            if not (ss and all(isinstance(x, ast.Call) and any(x is t for t in calls['tell']) for x in ss)):
+                continue
+            tn = [n for x in ss for n in node_of(x)]
+            if not cfg.must_pass(set(tn), cfg.entry, rn):
+                continue        # the position was not noted before the read
+            restoring.append(sk)
+        sn = set(n for sk in restoring for n in node_of(sk))
+        # (a ``return f.read(n)`` under try/finally leaves through the finally block: judged on the way to the exit node)
+        ok = bool(restoring) and cfg.exit in after and cfg.must_pass(sn, list(rn), cfg.exit, normal_only=True)
+        rep.check('R14.n', fkey(pk, 'position restored after %s' % rd.func.attr), ok,
+                  'every return after the read passes seek(<position noted by tell() before it>)' if ok else
+                  'peek_file can return after %s without seeking back to the position tell() gave before the read: the bytes looked '
+                  'at are missing from the body that is served (Content-Length no longer matches)' % short(rd), st, rd)
+    # the caller: the handle goes to peek_file, close() and the wrapper only
+    bfr = st.func('build_file_response')
+    handles = set()
+    for s in stmts_of(bfr.node):
+        if isinstance(s, ast.Assign):
+            for t0 in s.targets:
+                for t, v in ([(t0, s.value)] if not isinstance(t0, (ast.Tuple, ast.List)) else
+                             (list(zip(t0.elts, s.value.elts)) if isinstance(s.value, (ast.Tuple, ast.List)) and len(s.value.elts) == len(t0.elts) else [])):
+                    if isinstance(t, ast.Name) and isinstance(v, ast.Call) and call_name(v) == 'open':
+                        handles.add(t.id)
+    if not handles:
+        raise AnalysisError('build_file_response: the local holding the opened file not found')
+    grew = True
+    while grew:     # plain copies of the handle
+        grew = False
+        for s in stmts_of(bfr.node):
+            if isinstance(s, ast.Assign) and isinstance(s.value, ast.Name) and s.value.id in handles:
+                for t in s.targets:
+                    if isinstance(t, ast.Name) and t.id not in handles:
+                        handles.add(t.id)
+                        grew = True
+    bad = []
+    for n in walk_body(bfr.node):
+        if isinstance(n, ast.Call) and isinstance(n.func, ast.Attribute) and isinstance(n.func.value, ast.Name) and n.func.value.id in handles \
+                and n.func.attr in READS:
+            bad.append(n)
+        if isinstance(n, (ast.For, ast.comprehension)) and isinstance(n.iter, ast.Name) and n.iter.id in handles:
+            bad.append(n.iter)
+    rep.check('R14.n', fkey(bfr, 'handle reaches the wrapper unread'), not bad,
+              'build_file_response itself never reads from / moves the opened file' if not bad else
+              'build_file_response consumes the opened file (%s) before it is wrapped as the body' % short(bad[0]), st, bad[0] if bad else bfr.node)
+    rep.floor('R14.n', 2)
